@@ -1183,6 +1183,20 @@ def negotiate(
     return None
 
 
+def signature_algorithm_matches_key(signature_algorithm: int, public_key: Any) -> bool:
+    """
+    Check the type of a certificate's public key fits a signature algorithm.
+    """
+    if signature_algorithm == SignatureAlgorithm.ED25519:
+        return isinstance(public_key, ed25519.Ed25519PublicKey)
+    if signature_algorithm == SignatureAlgorithm.ED448:
+        return isinstance(public_key, ed448.Ed448PublicKey)
+    padding_cls, algorithm_cls = SIGNATURE_ALGORITHMS[signature_algorithm]
+    if padding_cls is None:
+        return isinstance(public_key, ec.EllipticCurvePublicKey)
+    return isinstance(public_key, rsa.RSAPublicKey)
+
+
 def signature_algorithm_params(signature_algorithm: int) -> tuple:
     if signature_algorithm in (SignatureAlgorithm.ED25519, SignatureAlgorithm.ED448):
         return tuple()
@@ -1510,6 +1524,10 @@ class Context:
             public_key = cast(
                 CertificateIssuerPublicKeyTypes, self._peer_certificate.public_key()
             )
+            if not signature_algorithm_matches_key(verify.algorithm, public_key):
+                raise AlertIllegalParameter(
+                    "CertificateVerify algorithm does not match the certificate's key"
+                )
             public_key.verify(
                 verify.signature,
                 self.key_schedule.certificate_verify_data(
